@@ -518,7 +518,7 @@ func levelsOf(c *Case) []float64 {
 
 func TestInvCDF(t *testing.T) {
 	ev.Rule(rule)
-	ev.Rapid(t, "c07-invcdf", 4000, 400000, func(rt *rapid.T) {
+	ev.Rapid(t, "c07-invcdf", 20000, 400000, func(rt *rapid.T) {
 		c := drawDist(rt)
 		c.Ys = drawYs(rt, levelsOf(c))
 		checkInv.Run(rt, c)
@@ -537,7 +537,7 @@ func TestDispatch(t *testing.T) {
 
 func TestRand(t *testing.T) {
 	ev.Rule(rule)
-	ev.Rapid(t, "c07-rand-exact", 300, 20000, func(rt *rapid.T) {
+	ev.Rapid(t, "c07-rand-exact", 1500, 20000, func(rt *rapid.T) {
 		c := &RandCase{Dist: *drawDist(rt), Seed: int64(rapid.IntRange(1, 1<<30).Draw(rt, "seed")), Exact: 12}
 		// scripted 63-bit values; 0 and multiples of 2^53 give y == 0
 		n := rapid.IntRange(0, 6).Draw(rt, "nscript")
@@ -555,7 +555,7 @@ func TestRand(t *testing.T) {
 		}
 		checkRand.Run(rt, c)
 	})
-	ev.Rapid(t, "c07-rand-ks", 12, 400, func(rt *rapid.T) {
+	ev.Rapid(t, "c07-rand-ks", 30, 400, func(rt *rapid.T) {
 		c := &RandCase{Dist: *drawDist(rt), Seed: int64(rapid.IntRange(1, 1<<30).Draw(rt, "seed")), Exact: 0, KS: 50000}
 		if c.Dist.Kind != "pw" {
 			c.KS = 5000 // the built-in CDFs are two orders of magnitude slower
